@@ -5,8 +5,8 @@ package main
 // Enumerated (any input, malformed included): full products, one table at a time with the
 // others at base, of the reference-bearing cells over collision-forcing alphabets - stops:
 // 0..3 (thorough 4) rows, stop_id in {"",S1,S2,S3} x parent_station in {"",S1,S2,S3,SX}
-// (self, mutual and longer cycles, duplicates, blank ids, dangling parents) x every rotation
-// of the parent-linking map loop; routes x agencies (1 / 2 / duplicate-id agencies);
+// (self, mutual and longer cycles, duplicates, blank ids, dangling parents, ids that differ only by a surrounding blank) x three rotations of every
+// library map loop; routes x agencies (1 / 2 / duplicate-id agencies);
 // trips (route, service, shape each in {"", known, known2, unknown}); stop_times; transfers.
 // Then <= 2 deviations across all reference cells of a 3-row-per-table feed, and a growth
 // sweep (1..40 rows per table) so that every result slice is re-allocated while pointers
@@ -198,7 +198,9 @@ func c03Run(c *Ctx, m *feedModel, nontrivial bool, desc string) {
 	tagRows(m)
 	b := renderFeed(m, presentation{})
 	c.Input(hash64(string(b)), nontrivial, func() string { return desc + "\n" + m.text() })
-	c.SetMapMode(mapFree)
+	// every library map range starts at the same rotation (0, 1 or 2): each site sees every start
+	// for maps of <= 3 entries, without multiplying the sites with each other
+	c.SetMapRotation(c.Free("map_rotation", 3))
 	r, err, ok := parseStaticGuarded(c, b, gtfs.ParseStaticOptions{})
 	c.SetMapMode(mapFixed)
 	if !ok {
@@ -217,7 +219,7 @@ func protoRow(t *table) []string { return append([]string{}, t.Rows[0]...) }
 
 func c03Stops(maxRows int) Harness {
 	ids := []string{"", "S1", "S2", "S3"}
-	parents := []string{"", "S1", "S2", "S3", "SX"}
+	parents := []string{"", "S1", "S2", "S3", "SX", "S1 "}
 	return func(c *Ctx) {
 		m := genStaticFeedN(c, false, baseCounts, nil, nil)
 		t := m.t("stops.txt")
@@ -278,7 +280,7 @@ func c03Routes(maxRows int) Harness {
 		n := c.Free("routes.rows", maxRows+1)
 		var desc []string
 		for r := 0; r < n; r++ {
-			a := []string{"", "A", "B", "AX"}[c.Free(fmt.Sprintf("routes[%d].agency_id", r), 4)]
+			a := []string{"", "A", "B", "AX", "A "}[c.Free(fmt.Sprintf("routes[%d].agency_id", r), 5)]
 			rt.Rows = append(rt.Rows, append([]string{}, pr...))
 			rt.set(r, "route_id", fmt.Sprintf("R%d", r+1))
 			rt.set(r, "agency_id", a)
@@ -301,9 +303,9 @@ func c03Trips(maxRows int) Harness {
 		}
 		var desc []string
 		for r := 0; r < n; r++ {
-			route := []string{"R1", "", "R2", "RX"}[c.Free(fmt.Sprintf("trips[%d].route_id", r), 4)]
-			service := []string{"C1", "", "X1", "CX"}[c.Free(fmt.Sprintf("trips[%d].service_id", r), 4)]
-			shape := []string{"", "SH1", "SH2", "SHX"}[c.Free(fmt.Sprintf("trips[%d].shape_id", r), 4)]
+			route := []string{"R1", "", "R2", "RX", "R1 "}[c.Free(fmt.Sprintf("trips[%d].route_id", r), 5)]
+			service := []string{"C1", "", "X1", "CX", " C1"}[c.Free(fmt.Sprintf("trips[%d].service_id", r), 5)]
+			shape := []string{"", "SH1", "SH2", "SHX", "SH1 "}[c.Free(fmt.Sprintf("trips[%d].shape_id", r), 5)]
 			t.Rows = append(t.Rows, append([]string{}, p...))
 			t.set(r, "trip_id", fmt.Sprintf("T%d", r+1))
 			t.set(r, "route_id", route)
@@ -325,10 +327,14 @@ func c03StopTimes(maxRows int) Harness {
 		if c.Free("duplicate_trip_ids", 2) == 1 {
 			m.t("trips.txt").set(1, "trip_id", "T1")
 		}
+		// a stop whose id differs from S1 only by a trailing blank may or may not exist
+		if c.Free("padded_stop_id_exists", 2) == 1 {
+			m.t("stops.txt").set(2, "stop_id", "S1 ")
+		}
 		var desc []string
 		for r := 0; r < n; r++ {
-			trip := []string{"T1", "", "T2", "TX"}[c.Free(fmt.Sprintf("stop_times[%d].trip_id", r), 4)]
-			stop := []string{"S1", "", "SX", "S2"}[c.Free(fmt.Sprintf("stop_times[%d].stop_id", r), 4)]
+			trip := []string{"T1", "", "T2", "TX", "T1 "}[c.Free(fmt.Sprintf("stop_times[%d].trip_id", r), 5)]
+			stop := []string{"S1", "", "SX", "S2", "S1 ", " S2"}[c.Free(fmt.Sprintf("stop_times[%d].stop_id", r), 6)]
 			t.Rows = append(t.Rows, append([]string{}, p...))
 			t.set(r, "trip_id", trip)
 			t.set(r, "stop_id", stop)
@@ -351,8 +357,8 @@ func c03Transfers(maxRows int) Harness {
 		}
 		var desc []string
 		for r := 0; r < n; r++ {
-			from := []string{"S1", "", "S2", "SX"}[c.Free(fmt.Sprintf("transfers[%d].from", r), 4)]
-			to := []string{"S2", "", "S1", "SX"}[c.Free(fmt.Sprintf("transfers[%d].to", r), 4)]
+			from := []string{"S1", "", "S2", "SX", "S1 "}[c.Free(fmt.Sprintf("transfers[%d].from", r), 5)]
+			to := []string{"S2", "", "S1", "SX", " S2"}[c.Free(fmt.Sprintf("transfers[%d].to", r), 5)]
 			t.Rows = append(t.Rows, append([]string{}, p...))
 			t.set(r, "from_stop_id", from)
 			t.set(r, "to_stop_id", to)
@@ -392,8 +398,8 @@ func c03Cross(c *Ctx) {
 	vary("trips.txt", "route_id", "", "R1", "R2", "RX")
 	vary("trips.txt", "service_id", "", "C1", "C2", "X1", "CX")
 	vary("trips.txt", "shape_id", "", "SH1", "SH2", "SHX")
-	vary("stop_times.txt", "trip_id", "", "T1", "T2", "T3", "TX")
-	vary("stop_times.txt", "stop_id", "", "S1", "S2", "SX")
+	vary("stop_times.txt", "trip_id", "", "T1", "T2", "T3", "TX", " T1")
+	vary("stop_times.txt", "stop_id", "", "S1", "S2", "SX", "S1 ")
 	c03Run(c, m, len(applied) > 0, fmt.Sprint(applied))
 }
 
@@ -409,19 +415,19 @@ func init() {
 	register(&Check{
 		ID:    "C03",
 		Level: "model_checking",
-		Rule: "full products per table: stops 0..3 rows (thorough 0..4) x stop_id {'',S1,S2,S3} x parent {'',S1,S2,S3,SX}; routes 0..3 x agency_id {'',A,B,AX} x 6 agency configurations (single, two, duplicate ids, blank ids); trips 0..2 (thorough 3) x route/service/shape alphabets x duplicate route ids; stop_times 0..3 x trip {T1,'',T2,TX} x stop {S1,'',SX,S2} x duplicate trip ids; transfers 0..3 (quick 2) x from/to alphabets x duplicate stop ids; all map rotations of every library range; plus <= 2 deviations over all id / reference cells of an 18-table-row feed and a growth sweep 1..40 rows per table; " +
+		Rule: "full products per table: stops 0..3 rows (thorough 0..4) x stop_id {'',S1,S2,S3} x parent {'',S1,S2,S3,SX}; routes 0..3 x agency_id {'',A,B,AX} x 6 agency configurations (single, two, duplicate ids, blank ids); trips 0..2 (thorough 3) x route/service/shape alphabets x duplicate route ids; stop_times 0..2 (thorough 3) x trip {T1,'',T2,TX} x stop {S1,'',SX,S2} x duplicate trip ids; transfers 0..3 (quick 2) x from/to alphabets x duplicate stop ids; map iteration starts 0, 1, 2 applied uniformly to every library range; plus <= 2 deviations over all id / reference cells of an 18-table-row feed and a growth sweep 1..40 rows per table; " +
 			"non-trivial = distinct archives with at least two rows in the table under study (or any deviation); oracle = pointer-identity / named-id / forest invariants",
 		Assumptions: []string{"each result entity is traced to its row through a free-text column carrying the row number", "a route that names no agency may be linked only when there is exactly one agency"},
 		Scenarios: func(tier string) []*Scenario {
-			st, tr, tf := 3, 2, 2
+			st, tr, tf, stt := 3, 2, 2, 2
 			if tier == "thorough" {
-				st, tr, tf = 4, 3, 3
+				st, tr, tf, stt = 4, 3, 3, 3
 			}
 			return []*Scenario{
 				{Name: "stops-product", Bound: -1, Run: c03Stops(st)},
 				{Name: "routes-agencies-product", Bound: -1, Run: c03Routes(3)},
 				{Name: "trips-product", Bound: -1, Run: c03Trips(tr)},
-				{Name: "stop_times-product", Bound: -1, Run: c03StopTimes(3)},
+				{Name: "stop_times-product", Bound: -1, Run: c03StopTimes(stt)},
 				{Name: "transfers-product", Bound: -1, Run: c03Transfers(tf)},
 				{Name: "cross-table", Bound: 2, Run: c03Cross},
 				{Name: "growth-sweep", Bound: -1, Run: c03Growth},
